@@ -43,6 +43,10 @@ type claimPlan struct {
 	PDB      bool              `json:"pdb"`
 	Vanish   bool              `json:"instanceVanishes"`
 	NotReady bool              `json:"kubeletStopsPostingReady"`
+	LatePod  bool              `json:"latePod"` // a drainable pod is bound to the node at some point after the deletion started
+	// LateAfterDrained: the late pod is bound right after the step in which Drained=True was persisted on the NodeClaim
+	// (while the node still waits on volume detachment / instance termination) instead of at a PRNG script position
+	LateAfterDrained bool `json:"lateAfterDrained"`
 }
 
 func genPlan(rng *rand.Rand, ci int) claimPlan {
@@ -78,6 +82,8 @@ func genPlan(rng *rand.Rand, ci int) claimPlan {
 	}
 	p.Vanish = rng.Intn(100) < 22
 	p.NotReady = rng.Intn(100) < 25
+	p.LatePod = (p.Stage == "registered" || p.Stage == "initialized") && rng.Intn(100) < 35
+	p.LateAfterDrained = p.LatePod && rng.Intn(2) == 0
 	return p
 }
 
@@ -293,6 +299,11 @@ func genScript(rng *rand.Rand, plans []claimPlan) []step {
 		}
 		if p.NotReady {
 			insert(step{Op: "K", C: c, Act: "notready"})
+		}
+		if p.LatePod && !p.LateAfterDrained {
+			// a pod bound straight to the node (spec.nodeName set by its creator / a stale scheduler binding) while the node is
+			// already terminating - possibly after the drain had completed once and the node waits on volumes or the instance
+			insert(step{Op: "P", C: c})
 		}
 		lanes[c] = l
 	}
